@@ -75,6 +75,8 @@ OPS = {
     'sel_random_repl': lambda s: selectors.Random(3, replacement=True, seed=s),
     'sel_sample': lambda s: selectors.Sample(2, weights=_w, seed=s),
     'sel_proportional': lambda s: selectors.Proportional(2, weights=_w),
+    # weights spread over two orders of magnitude (rounding over- and under-allocates), as many selected as given
+    'sel_proportional_w': lambda s: selectors.Proportional(5, weights=lambda xs: [1.0 + 29.0 * ev.get_fitness(d) for d in xs]),
     'sel_top': lambda s: selectors.Top(2),
     'sel_bottom': lambda s: selectors.Bottom(2),
     'sel_first': lambda s: selectors.First(2),
@@ -98,7 +100,7 @@ OPS = {
     'x_until_change': lambda s: selectors.First(1) >> mutators.Uniform(seed=s).until_change(max_attempts=2),
     'x_choice': lambda s: ev_base.Choice([(mutators.Uniform(seed=s), 0.5), (mutators.Swap(seed=s), 0.5)], seed=s),
 }
-SELECTOR_COUNT = {'sel_random': 2, 'sel_random_repl': 3, 'sel_sample': 2, 'sel_proportional': 2, 'sel_top': 2, 'sel_bottom': 2,
+SELECTOR_COUNT = {'sel_random': 2, 'sel_random_repl': 3, 'sel_sample': 2, 'sel_proportional': 2, 'sel_proportional_w': 5, 'sel_top': 2, 'sel_bottom': 2,
                   'sel_first': 2, 'sel_last': 2}
 PURE_SELECTION = set(SELECTOR_COUNT) | {'x_union', 'x_intersection', 'x_difference', 'x_inversion', 'x_symdiff', 'x_slice'}
 TWO_PARENTS = {'rec_kpoint1', 'rec_kpoint2', 'rec_segmented', 'rec_pmx', 'rec_order', 'rec_cycle'}
@@ -134,7 +136,7 @@ def _snapshot(pop):
   return [(id(d), pg.to_json(d), dict(d.metadata), d.spec is not None) for d in pop]
 
 
-def h_op(params, n0, n1, n2, n3, size, f0, f1, f2, f3, rng):
+def h_op(params, n0, n1, n2, n3, size, f0, f1, f2, f3, rng, n4=0, f4=0):
   name, sp = params['op'], params['spec']
   spec, dnas = space(sp)
   if 'sizes' in params:      # core shards: size was made concrete by h_op_core (and may be 1)
@@ -144,8 +146,8 @@ def h_op(params, n0, n1, n2, n3, size, f0, f1, f2, f3, rng):
     size = _pick([2, 3, 4], size - 2)
   if name in TWO_PARENTS and size != 2:
     raise Assume()          # documented: these recombinators take exactly two parents
-  idx = [n0, n1, n2, n3][:size]
-  fit = [f0, f1, f2, f3][:size]
+  idx = [n0, n1, n2, n3, n4][:size]
+  fit = [f0, f1, f2, f3, f4][:size]
   # fitness: symbolic ints -> all relative orders and ties; made concrete by branching on a small range
   fit = [_pick(list(range(0, 3)), f) for f in fit]
   pop = []
@@ -186,7 +188,7 @@ def h_op(params, n0, n1, n2, n3, size, f0, f1, f2, f3, rng):
           return Violation(f'{name}:output_not_a_member_of_input', repr(o))
       if name in SELECTOR_COUNT:
         want = SELECTOR_COUNT[name]
-        if name not in ('sel_random_repl', 'sel_sample', 'sel_proportional'):
+        if name not in ('sel_random_repl', 'sel_sample', 'sel_proportional', 'sel_proportional_w'):
           want = min(want, len(pop))
         if len(out) != want:
           return Violation(f'{name}:output_count', f'{len(out)} vs {want} from {len(pop)}')
@@ -234,17 +236,17 @@ def h_seeded(params, n0, n1, n2, seed_sel, g1, g2):
 
 
 _ARGS = [('n0', 'int'), ('n1', 'int'), ('n2', 'int'), ('n3', 'int'), ('size', 'int'), ('f0', 'int'), ('f1', 'int'), ('f2', 'int'),
-         ('f3', 'int'), ('rng', 'rng')]
+         ('f3', 'int'), ('rng', 'rng'), ('n4', 'int'), ('f4', 'int')]
 SEEDED = ['mut_uniform', 'mut_swap', 'rec_uniform', 'rec_kpoint1', 'rec_pmx', 'sel_random', 'sel_sample', 'x_with_prob', 'x_choice',
           'x_pipeline']
 
 
-def h_op_r(params, n0, n1, n2, n3, size, f0, f1, f2, f3, rng):
+def h_op_r(params, n0, n1, n2, n3, size, f0, f1, f2, f3, rng, n4=0, f4=0):
   # shard-level cut of the population: first member from a window of the enumeration
   lo, hi = params.get('window', (0, 10 ** 6))
   if not lo <= n0 < hi:
     raise Assume()
-  return h_op(params, n0, n1, n2, n3, size, f0, f1, f2, f3, rng)
+  return h_op(params, n0, n1, n2, n3, size, f0, f1, f2, f3, rng, n4, f4)
 
 
 def shards(tier, seed):
@@ -253,7 +255,7 @@ def shards(tier, seed):
   out = []
   default_specs = ['named'] if quick else ['named', 'sorted_multi', 'multi_nested', 'perm', 'sorted_nd']
   for cname, cparams in core_shards():
-    out.append(dict(name=cname, fn='h_op_core', params=cparams, args=_ARGS, budget_s=240 if quick else 900, expect_s=40, per_path_s=20))
+    out.append(dict(name=cname, fn='h_op_core', params=cparams, args=_ARGS, budget_s=240 if quick else 900, expect_s=25, per_path_s=20))
   for name in OPS:
     specs = [NEEDS[name]] if name in NEEDS else default_specs
     if name in ('rec_average', 'rec_wavg'):
@@ -284,7 +286,7 @@ META = dict(
 
 
 # --- core shards: small enough to close (every member combination x every RNG draw, within the stated cut) ---
-FITNESS_SENSITIVE = {'sel_top', 'sel_bottom', 'x_pipeline', 'x_elitism', 'x_difference', 'x_inversion', 'x_slice', 'x_if_true',
+FITNESS_SENSITIVE = {'sel_proportional_w', 'sel_top', 'sel_bottom', 'x_pipeline', 'x_elitism', 'x_difference', 'x_inversion', 'x_slice', 'x_if_true',
                      'x_rec_then_mut'}
 
 # op -> [(spec, population sizes, number of representative members, fitness values)]
@@ -302,6 +304,7 @@ CORE = {
     'sel_random_repl': [('named', [2], 2, None), ('named', [3], 1, None)],
     'sel_sample': [('named', [2, 3], 2, None)],
     'sel_proportional': [('named', [2, 3], 2, None)],
+    'sel_proportional_w': [('named', [3, 4, 5], 1, [0, 1])],
     'sel_top': _SEL, 'sel_bottom': _SEL, 'x_difference': _SEL, 'x_inversion': _SEL, 'x_slice': _SEL,
     'sel_first': _A(), 'sel_last': _A(), 'x_union': _A(), 'x_intersection': _A(), 'x_symdiff': _A(), 'x_for_each': _A(),
     'x_pipeline': [('tiny', [2], 1, [0, 1])],
@@ -329,18 +332,18 @@ def core_shards():
   return out
 
 
-def h_op_core(params, n0, n1, n2, n3, size, f0, f1, f2, f3, rng):
+def h_op_core(params, n0, n1, n2, n3, size, f0, f1, f2, f3, rng, n4=0, f4=0):
   """h_op under a cut that makes the path tree finite and small: members drawn from `reps` (indices into the
   enumeration), population size from `sizes`, fitness symbolic only where the expression reads it."""
   reps, sizes = params['reps'], params['sizes']
   from engine.chx import concretize
   size = concretize(size, sizes)
-  ns = [n0, n1, n2, n3]
-  fs = [f0, f1, f2, f3]
-  for k in range(4):
+  ns = [n0, n1, n2, n3, n4]
+  fs = [f0, f1, f2, f3, f4]
+  for k in range(5):
     if k < size:
       ns[k] = concretize(ns[k], reps)
       fs[k] = concretize(fs[k], params.get('fits', [0, 1, 2])) if params['op'] in FITNESS_SENSITIVE else k % 3
     else:
       ns[k], fs[k] = 0, 0
-  return h_op(params, ns[0], ns[1], ns[2], ns[3], size, fs[0], fs[1], fs[2], fs[3], rng)
+  return h_op(params, ns[0], ns[1], ns[2], ns[3], size, fs[0], fs[1], fs[2], fs[3], rng, ns[4], fs[4])
